@@ -76,6 +76,20 @@ pub fn generate(seed: u64, cases: usize, out: &mut Vec<String>) {
                     }
                 }
             }
+            // a burst of log rotations (three or more files behind the active one), with writes in
+            // between: the checkpoint that close() takes must not lose the oldest files
+            if r.chance(1, 5) {
+                for _ in 0..r.range(3, 5) {
+                    out.push("pers rotate".into());
+                    if r.chance(1, 2) {
+                        out.push(format!("pers cn {}", r.below(3)));
+                        nn += 1;
+                    }
+                }
+                if r.chance(1, 2) {
+                    out.push("pers ckpt".into());
+                }
+            }
             out.push("pers dump".into());
             if r.chance(1, 3) {
                 out.push(format!("pers copy {}", r.pick(&["expimp", "tomem", "save"])));
